@@ -1189,6 +1189,47 @@ pub fn generate(prop: &str, out: &mut Out, thorough: bool, seed: u64) -> bool {
             let p = Plan { enc: e, bom, sink16, repl, stream, cuts, caps, skip };
             emit(out, &p, &props);
         }
+        // bulk / fast-path regime: an ASCII run whose length sits around a stride boundary, then one
+        // non-ASCII character (valid or not), then a short tail; capacities around the run length so that
+        // the destination runs out inside the run, right before / inside / right after the character
+        let runs: &[usize] = if thorough { &[7, 8, 15, 16, 17, 23, 24, 31, 32, 33, 47, 48, 63, 64, 65, 127, 128, 129] } else { &[15, 16, 17, 31, 32, 33, 63, 64, 65] };
+        for (ri, &l) in runs.iter().enumerate() {
+            for variant in 0..(if thorough { 6 } else { 3 }) {
+                let mut stream: Vec<u8> = (0..l).map(|j| b"abc, .x0;"[(j + ri) % 9]).collect();
+                // the character after the run
+                let ch: Vec<u8> = match (variant + ri) % 6 {
+                    0 => {
+                        let (b, _, _) = e.encode("\u{E9}");
+                        b.into_owned()
+                    }
+                    1 => {
+                        let (b, _, _) = e.encode("\u{3042}");
+                        b.into_owned()
+                    }
+                    2 => vec![0xFF],
+                    3 => {
+                        let (b, _, _) = e.encode("\u{1F4A9}");
+                        b.into_owned()
+                    }
+                    4 => vec![0x81],
+                    _ => {
+                        let (b, _, _) = e.encode("\u{20AC}");
+                        b.into_owned()
+                    }
+                };
+                stream.extend_from_slice(&ch);
+                stream.extend_from_slice(&b"yz"[..(variant % 3).min(2)]);
+                let sink16 = (variant + ri) % 2 == 0;
+                let repl = prop == "C09" || variant % 3 == 1;
+                let base = l + rng.below(4);
+                let capv = vec![base.max(min_cap(sink16)) - 1 + rng.below(3), min_cap(sink16) + rng.below(3)];
+                let capv: Vec<usize> = capv.into_iter().map(|c| c.max(min_cap(sink16))).collect();
+                let caps = if prop == "C07" { vec![QUERY_CAP] } else { capv };
+                let cuts = if variant % 2 == 0 { vec![stream.len()] } else { vec![l.saturating_sub(1 + rng.below(3)), stream.len()] };
+                let p = Plan { enc: e, bom: Bom::Off, sink16, repl, stream, cuts, caps, skip: false };
+                emit(out, &p, &props);
+            }
+        }
     }
     true
 }
